@@ -14,6 +14,10 @@ pub struct C01Case {
     pub selection: Map<String, Value>,
     /// key binding requested by the holder and checked by the verifier (key == issue.holder)
     pub kb: Option<KbArgs>,
+    /// presentations the same holder instance made before (other selections, other aud / nonce);
+    /// the checked presentation must be what a fresh holder would produce
+    #[serde(default)]
+    pub earlier: Vec<sut::EarlierCall>,
 }
 
 pub fn selection_kind(tree: &MNode, selected: usize) -> &'static str {
@@ -65,7 +69,11 @@ pub fn check(case: &C01Case, st: &mut Stats) -> Verdict {
     }
 
     let sd_jwt = must_ok("issue_sd_jwt", sut::issue(spec))?;
-    let presentation = must_ok("create_presentation", sut::present(&sd_jwt, spec.fmt, &case.selection, case.kb.as_ref()))?;
+    if !case.earlier.is_empty() {
+        st.label("holder_served_earlier_presentations");
+        st.sub(case.earlier.len() as u64);
+    }
+    let presentation = must_ok("create_presentation", sut::present_after(&sd_jwt, spec.fmt, &case.earlier, &case.selection, case.kb.as_ref()))?;
     let kb = case.kb.as_ref().map(|k| (k.aud.as_str(), k.nonce.as_str()));
     let got = must_ok("SDJWTVerifier::new", sut::verify(&presentation, spec.fmt, spec.alg, kb))?;
 
